@@ -105,7 +105,7 @@ CHECKS = {
         design='4/C20',
         note=(NOTE_COMMON + ' Two open known findings (F20: context label X<n> counted as n characters; F20b: letters whose upper-case form is longer than one character) are matched by signature on the failing case and printed as KNOWN-FINDING; any other violation of the property still exits 1.')),
     'C10': dict(
-        technique="Hypothesis property-based testing of generated OMEN models x every level, and a Hypothesis RuleBasedStateMachine over cache histories (shared optimizer), against an independent DFS reference enumerator; deterministic work budget instead of timeouts; OMEN files in LF / CRLF / unterminated spellings; sequence equality with an empty-cache generator",
+        technique="Hypothesis property-based testing of generated OMEN models x every level, and a Hypothesis RuleBasedStateMachine over cache histories (shared optimizer), against an independent DFS reference enumerator; deterministic work budget instead of timeouts; OMEN files in LF / CRLF / unterminated spellings; sequence equality with an empty-cache generator; scale part: one shared cache grown beyond 2^18 results",
         text=("Generated OMEN models (n-gram 2-5, sparse/dense, dead-end and expensive-only contexts, length == n-gram size) are written "
               "to disk, loaded by the real loader and every level 0..12 is generated by the real MarkovCracker: no duplicates, set "
               "equal to an independent enumerator's, exhaustion reported. A rule-based state machine interleaves full runs, "
